@@ -1220,7 +1220,9 @@ class Flow:
             self.defbounds.setdefault(a, self.hw_bounds)
             s = s.drop(lambda kk: kk == ('fact', a))
             return [s.event(('call', q, objv, argv, loc)).set(rkey, Poly.atom(a))]
-        body = None if self.api(q) else self.find_body(fr, n)
+        api_sig = getattr(self, 'api_sig', None)      # optional: (q, signature) -> bool, for overloads that share a name
+        is_api = self.api(q) or bool(api_sig and api_sig(q, sd.get('fty')))
+        body = None if is_api else self.find_body(fr, n)
         if body is None or fr.depth >= self.MAX_DEPTH:
             for i, av in enumerate(argv):
                 aa = av.as_atom()
